@@ -304,9 +304,7 @@ func (p *Parser) parseExpression(precedence ast.Priority) ast.Node {
 	}
 	prefix := p.prefixParseFns[p.curToken.Type()]
 	if prefix == nil {
-		if !p.peekTokenIs(token.LAMBDA) { // To make () => { ... } without errors.
-			p.noPrefixParseFnError(p.curToken)
-		}
+		p.noPrefixParseFnError(p.curToken)
 		return nil
 	}
 	leftExp := prefix()
@@ -384,9 +382,13 @@ func (p *Parser) parseBoolean() ast.Node {
 
 func (p *Parser) parseGroupedExpression() ast.Node {
 	p.nextToken()
+	if p.curTokenIs(token.RPAREN) && p.peekTokenIs(token.LAMBDA) { // () => { ... } case: no parameter.
+		p.nextToken()
+		return p.parseLambdaMulti(nil)
+	}
 	exp := p.parseExpression(ast.LOWEST)
 	log.Debugf("parseGroupedExpression: %#v", exp)
-	if p.peekTokenIs(token.LAMBDA) { // () => { ... } case
+	if p.peekTokenIs(token.LAMBDA) { // (a) => { ... } case
 		p.nextToken()
 		return p.parseLambdaMulti(exp)
 	}
